@@ -48,7 +48,7 @@ GATEWAY_ADDR = ("10.0.0.2", 3671)
 
 # ACK behaviours for one received TunnellingRequest transmission:
 # list of (delay or None for the gateway latency, channel delta, counter delta, status)
-ACK_BEHAVIOURS: dict[str, list[tuple[float | None, int, int, ErrorCode]]] = {
+ACK_BEHAVIOURS: dict[str, list[tuple[float | None, int, int, Any]]] = {
     "ok": [(None, 0, 0, ErrorCode.E_NO_ERROR)],
     "lost": [],
     "late": [(1.5, 0, 0, ErrorCode.E_NO_ERROR)],
@@ -56,11 +56,37 @@ ACK_BEHAVIOURS: dict[str, list[tuple[float | None, int, int, ErrorCode]]] = {
     "stale": [(None, 0, -1, ErrorCode.E_NO_ERROR)],
     "wrongch": [(None, 1, 0, ErrorCode.E_NO_ERROR)],
     "err": [(None, 0, 0, ErrorCode.E_CONNECTION_ID)],
+    # right channel and counter, but a status octet that is NOT 0x00 and not a member of ErrorCode (an int = raw bytes)
+    "raw30": [(None, 0, 0, 0x30)],
+    "raw7f": [(None, 0, 0, 0x7F)],
+    "rawff": [(None, 0, 0, 0xFF)],
 }
+
+
+class RawFrame:
+    """Bytes the xknx frame classes cannot produce (e.g. a status octet outside ErrorCode), with their description."""
+
+    def __init__(self, data: bytes, **info: Any) -> None:
+        self.data = data
+        self.info = info
+
+
+def raw_status_frame(service: int, channel: int, *rest: int) -> bytes:
+    """header | channel | further octets (TunnellingAck: 0x04 ch seq status is built by raw_ack)."""
+    body = bytes((channel & 0xFF, *rest))
+    return bytes((0x06, 0x10, service >> 8, service & 0xFF)) + (6 + len(body)).to_bytes(2, "big") + body
+
+
+def raw_ack(channel: int, seq: int, status: int) -> bytes:
+    """A TunnellingAck with an arbitrary status octet."""
+    body = bytes((0x04, channel & 0xFF, seq & 0xFF, status & 0xFF))
+    return bytes((0x06, 0x10, 0x04, 0x21, 0x00, 0x0A)) + body
 
 
 def frame_bytes(body: Any) -> bytes:
     """Serialise a KNXnet/IP body into a complete frame."""
+    if isinstance(body, RawFrame):
+        return body.data
     return KNXIPFrame.init_from_body(body).to_knx()
 
 
@@ -80,6 +106,8 @@ def tag_of(raw_cemi: bytes) -> int:
 
 def describe(body: Any) -> dict[str, Any]:
     """Flat, JSON-friendly description of a KNXnet/IP body."""
+    if isinstance(body, RawFrame):
+        return dict(body.info)
     d: dict[str, Any] = {"type": type(body).__name__}
     if isinstance(body, ConnectRequest):
         d["ctype"] = body.cri.connection_type.name
@@ -278,6 +306,11 @@ class Gateway:
             verdict = self.hb_policy(n, body)
             if verdict == "silent":
                 return
+            if isinstance(verdict, int):  # a status octet outside ErrorCode, as raw bytes
+                self.send_body(RawFrame(raw_status_frame(0x0208, body.communication_channel_id, verdict),
+                                        type="ConnectionStateResponse", ch=body.communication_channel_id,
+                                        status=f"RAW_0x{verdict:02x}"), lat, tr=tr)
+                return
             status = verdict if isinstance(verdict, ErrorCode) else (
                 ErrorCode.E_NO_ERROR if body.communication_channel_id == self.channel else ErrorCode.E_CONNECTION_ID)
             self.send_body(ConnectionStateResponse(communication_channel_id=body.communication_channel_id,
@@ -299,10 +332,14 @@ class Gateway:
             verdict = self.ack_policy(n, body)
             acks = ACK_BEHAVIOURS[verdict] if isinstance(verdict, str) else verdict
             for delay, dch, dseq, status in acks:
-                self.send_body(TunnellingAck(communication_channel_id=(body.communication_channel_id + dch) & 0xFF,
-                                             sequence_counter=(body.sequence_counter + dseq) & 0xFF,
-                                             status_code=status),
-                               lat if delay is None else delay, tr=tr, behaviour=verdict if isinstance(verdict, str) else "custom")
+                ach, aseq = (body.communication_channel_id + dch) & 0xFF, (body.sequence_counter + dseq) & 0xFF
+                if isinstance(status, int):
+                    ack: Any = RawFrame(raw_ack(ach, aseq, status), type="TunnellingAck", ch=ach, seq=aseq,
+                                        status=f"RAW_0x{status:02x}")
+                else:
+                    ack = TunnellingAck(communication_channel_id=ach, sequence_counter=aseq, status_code=status)
+                self.send_body(ack, lat if delay is None else delay, tr=tr,
+                               behaviour=verdict if isinstance(verdict, str) else "custom")
         elif isinstance(body, DeviceConfigurationRequest):
             self.send_body(DeviceConfigurationAck(communication_channel_id=body.communication_channel_id,
                                                   sequence_counter=body.sequence_counter), lat, tr=tr)
